@@ -35,14 +35,14 @@ COMPONENTS = {
     "real": ["pulser sampling", "PulserData", "MPSBackend.run/_run/resume", "MPSBackendImpl.save_simulation", "pickle", "TDVP/DMRG/quantum-jump numerics", "kernel file system (tmpfs)"],
     "stubbed": ["wall clock (SimClock)", "uuid1/uuid4 (counter)", "RNG seeding", "minimize_bandwidth (scheduler-chosen permutation)", "process death (directory snapshot + fresh incarnation)"],
 }
-PROBES = ["crash_between_renames", "torn_new", "crash_before_bak_removed", "error_return_injected", "interrupt_injected", "second_crash_in_resumed_incarnation", "stale_leftover_present_at_save", "noisy_save_with_active_root_search", "final_cleanup_points"]
+PROBES = ["crash_between_renames", "torn_new", "crash_before_bak_removed", "error_return_injected", "interrupt_injected", "interrupt_during_final_cleanup", "second_crash_in_resumed_incarnation", "stale_leftover_present_at_save", "noisy_save_with_active_root_search", "final_cleanup_points"]
 ASSUMPTIONS = [
     "process crash model: directory contents at the instant of death survive; no power-loss (un-fsynced data) model, the property does not ask for it",
     "POSIX rename semantics (the kernel's)",
     "in-process restart; module globals survive (a sample is re-checked in a fresh interpreter by the selftest)",
 ]
 
-PROFILE = {"n_atoms": (2, 4), "n_pulses": (1, 2), "dur": (16, 80), "max_steps": 8, "p_modulation": 0.1, "solver_w": [0.5, 0.3, 0.2]}
+PROFILE = {"n_atoms": (2, 4), "n_pulses": (1, 2), "dur": (16, 80), "max_steps": 8, "p_modulation": 0.1, "solver_w": [0.5, 0.3, 0.2], "p_xy": 0.08}
 
 
 def plan(tier: str) -> dict:
@@ -255,6 +255,11 @@ def _after_kill(H: C.History, tape: Tape, world: World, case: dict, ref: M.Outco
     H.cases.append((f"{prefix}{(at or {}).get('op')}:{(at or {}).get('phase')}|ok={ok}", True))
     if rs.error is None:
         return  # the SUT swallowed it and finished: nothing to resume
+    if not ok and at is not None and not at.get("inside", True) and at.get("pcall", 0) > 0:
+        # the interrupt arrived outside any unit of work after the last one: the simulation had finished and was
+        # removing its autosave file - not "during an autosave", and there is nothing left to resume
+        H.probe("interrupt_during_final_cleanup")
+        return
     if not ok:
         H.viol("C27.missing" if data is None else "C27.unloadable", site, f"an injected {what} at fs point {k} of a resumed incarnation killed the run and left " + ("no file" if data is None else f"an unloadable file ({why})") + f" under {base}: { {n: (len(b) if b is not None else None) for n, b in files.items()} }")
         return
